@@ -74,8 +74,8 @@ var props = map[string]*propCfg{
 		Rule:  "cases = (initial content, per-thread programs over Push/Pop/PopWait/Len, optional probe thread, scheduler policy, stalls, freeze point) drawn from the run seed; non-trivial = >=2 operations open at once and >=1 preemption inside an operation; distinct = distinct event-log hash over such runs",
 	},
 	"C12": {ID: "C12", Engine: "A", Pkgs: "mapz", Imports: impA, MapRange: true, Race: true, Level: "exploration", QuickS: 25, ThorS: 600,
-		Real:  []string{"mapz/safekv.go, mapz/iter.go, mapz/kv.go (every statement)", "sync.RWMutex (real lock taken after admission by the lock model)", "Go race detector"},
-		Stubs: []string{"goroutine scheduling (core scheduler)", "lock admission (reader/writer model)", "map iteration order (smap, seeded permutation)"},
+		Real:  []string{"mapz/safekv.go, mapz/iter.go, mapz/kv.go (every statement)", "sync.RWMutex (real lock taken after admission by the lock model)", "sync/atomic operations if the package uses any (real, after a scheduling point)", "Go race detector"},
+		Stubs: []string{"goroutine scheduling (core scheduler)", "lock admission (reader/writer model)", "map iteration order (smap, seeded permutation)", "sync.Pool if used (deterministic pool, emptied and ordered by the run seed)"},
 		Rule:  "cases = (initial map, per-thread programs over all SafeKV methods, scheduler policy, stalls) drawn from the run seed; non-trivial = >=2 operations open at once and >=1 preemption inside an operation; distinct = distinct event-log hash over such runs",
 	},
 }
@@ -109,8 +109,8 @@ func init() {
 		Assume: []string{"testing/synctest (go1.26.8) reports quiescence correctly; between two decisions only the released goroutine and goroutines it unblocks run, each stopping at its next statement"}}
 	props["C09"] = &propCfg{ID: "C09", Engine: "C", Pkgs: "cryptz", Imports: "crypto/rand=scrand,sync=csync", Level: "fault_enumeration", QuickS: 20, ThorS: 480,
 		Real:   []string{"cryptz/crypt.go, cryptz/aes.go, strz/enc.go (every statement)", "Go standard crypto (aes, cipher, md5) inside golib", "the real `openssl enc -aes-256-cbc -md md5` binary when present (28 messages both ways per check; optional)"},
-		Stubs:  []string{"crypto/rand.Reader (seeded/extreme bytes, short reads, errors)", "io.Reader peer (7 chunking policies, error after k bytes, data together with EOF or error, zero-length reads)", "io.Writer peer (error after k bytes)", "storage/transport medium (bit flips per field, truncation, extension, text substitution, wrong secret/AAD)"},
-		Rule:   "cases = (scenario of 8 classes, plaintext/secret/AAD lengths, generic instantiation string|[]byte, entropy plan, reader and writer chunking policies, fault position, medium fault kind/position/bit) drawn from the run seed, fault-free and faulted classes kept apart; non-trivial = at least one fault or non-default peer behaviour actually fired (short/zero/EOF-with-data read, peer error, entropy error/short read/extreme bytes, medium fault, garbage input); distinct = distinct hash of (params, env seed) over such runs",
+		Stubs:  []string{"crypto/rand.Reader (seeded/extreme bytes, short reads, errors)", "io.Reader peer (7 chunking policies, error after k bytes, data together with EOF or error, zero-length reads)", "io.Writer peer (error after k bytes)", "storage/transport medium (bit flips per field, truncation, extension, text substitution, wrong secret/AAD)", "the caller's own buffers (plaintext, additional data, key and message buffers overwritten in place between calls)", "sync.Pool if used (deterministic pool, emptied and ordered by the run seed)"},
+		Rule:   "cases = (scenario of 9 classes, plaintext/secret/AAD lengths, generic instantiation string|[]byte, entropy plan, reader and writer chunking policies, fault position, medium fault kind/position/bit) drawn from the run seed, fault-free and faulted classes kept apart; non-trivial = at least one fault or non-default peer behaviour actually fired (short/zero/EOF-with-data read, peer error, entropy error/short read/extreme bytes, medium fault, garbage input); distinct = distinct hash of (params, env seed) over such runs",
 		Assume: append([]string{"the reference derivation (crypto/md5, crypto/aes, cipher.NewCBCEncrypter/NewGCM/NewCTR of the Go standard library) is EVP_BytesToKey(MD5, 1 round) / openssl enc -aes-256-cbc -md md5", "a hex substitution that decodes to the same bytes is not a difference of the encoded message"}, seqAssume...)}
 }
 
